@@ -23,6 +23,7 @@ func propC01(r *Report, tier string) {
 	ruleExclusionAtReadSites(r, "K8-exclusion-at-read-sites")
 	ruleBatchIdsForwarded(r)
 	ruleUpsidedownWriters(r)
+	ruleUpsidedownDeleteKeys(r, "K8-upsidedown-delete-keys")
 	ruleStoredTypeTags(r)
 	r.Floor("K5dep-obsoletes-union", 3)
 	r.Floor("K8-exclusion-at-read-sites", 6)
@@ -575,4 +576,70 @@ func ruleStoredTypeTags(r *Report) {
 		}
 		r.Ob(rule, "upsidedown.decodeFieldType/tag-"+t+"/"+tn, token.NoPos, udTags[t], "stored-field type tag '"+t+"' must be decoded by upsidedown decodeFieldType")
 	}
+}
+
+// ruleUpsidedownDeleteKeys: the rows deleteSingle schedules for deletion are
+// keyed by EVERY key component the back index recorded for them (a stored row
+// of an array element is keyed by doc, field AND array positions; a term row
+// by term, field and doc).  A key component left out leaves orphan rows that
+// resurface when the id is re-created.
+func ruleUpsidedownDeleteKeys(r *Report, rule string) {
+	p := r.P
+	fi := p.MustFunc("index/upsidedown.(*UpsideDownCouch).deleteSingle")
+	r.Fn(fi)
+	info := fi.Pkg.TypesInfo
+	sig := fi.Obj.Type().(*types.Signature)
+	idParam := sig.Params().At(0)
+	d := newDeps(info, fi.Decl.Body)
+	n := 0
+	for _, spec := range []struct{ listField, ctor string }{{"storedEntries", "NewStoredRow"}, {"termsEntries", "NewTermFrequencyRow"}} {
+		for _, rs := range rangesOverField(info, fi.Decl.Body, "BackIndexRow", spec.listField) {
+			entry := objOf(info, rs.Value)
+			if entry == nil {
+				continue
+			}
+			et := entry.Type()
+			if pt, ok := et.(*types.Pointer); ok {
+				et = pt.Elem()
+			}
+			st, ok := et.Underlying().(*types.Struct)
+			if !ok {
+				continue
+			}
+			for _, c := range callsMatching(info, rs.Body, func(f *types.Func) bool { return f.Name() == spec.ctor }) {
+				n++
+				at := map[string]bool{}
+				for _, a := range c.Args {
+					for k := range d.SliceOfExpr(a) {
+						at[k] = true
+					}
+				}
+				var missing []string
+				for i := 0; i < st.NumFields(); i++ {
+					f := st.Field(i)
+					if !f.Exported() || strings.HasPrefix(f.Name(), "XXX") {
+						continue
+					}
+					if !at[varKeyOf(entry.(*types.Var))+"."+f.Name()] {
+						missing = append(missing, f.Name())
+					}
+				}
+				usesID := at[varKeyOf(idParam)]
+				r.Ob(rule, fi.Name+"/"+spec.ctor+"-keyed-by-all-recorded-components", c.Pos(), len(missing) == 0 && usesID,
+					fmt.Sprintf("the %s built for deletion must be keyed by the document id and every component the back-index entry records (missing: %v)", spec.ctor, missing))
+			}
+		}
+	}
+	if n < 2 {
+		undecidedf("%s: delete-row constructors not found (%d)", fi.Name, n)
+	}
+	// the back index row itself is deleted too
+	okSelf := false
+	ast.Inspect(fi.Decl.Body, func(x ast.Node) bool {
+		if c, ok := x.(*ast.CallExpr); ok && calleeBuiltin(info, c) == "append" && len(c.Args) == 2 && objOf(info, c.Args[1]) == sig.Params().At(1) {
+			okSelf = true
+		}
+		return true
+	})
+	r.Ob(rule, fi.Name+"/back-index-row-deleted", fi.Decl.Pos(), okSelf, "the back-index row of the document is deleted together with the rows it lists")
 }
